@@ -284,6 +284,33 @@ theorem ties_dekker_fix :
     ∀ e ∈ [(mul_dekker_fix_f16, 21520), (mul_dekker_fix_f32, 1166018560), (mul_dekker_fix_f64, 4728779608772575232)],
       e.1.nodes = mulDekkerFix e.2 e.1.fmt.maxBits 0 ∧ e.1.outs = mulDekkerFixOuts := by decide
 
+/-- **The scaled splitter** (`split_veltkamp(x, scale=True)`): for every normal x with |x| ≤ x_max (the
+format's documented bound) the scaling by 1/N = 2^−t and back is exact and the halves satisfy the same
+statement as `veltkamp_split` (e − t ≥ emin: always true for the |x| ≥ 1 that get scaled when emin ≤ −p−t). -/
+theorem veltkamp_split_scaled (q : QFmt) (r : ℚ → ℚ) (hr : IsRN q r) (f : Fmt) (xmb zb oneb cb invb nb : Nat) (s t : ℕ) (Xm : ℚ)
+    (hC : (decode f cb).toRat? = some (2 ^ s + 1)) (hXm : (decode f xmb).toRat? = some Xm) (hZ : (decode f zb).toRat? = some 0)
+    (h1 : (decode f oneb).toRat? = some 1) (hi : (decode f invb).toRat? = some (1 / 2 ^ t)) (hN : (decode f nb).toRat? = some (2 ^ t))
+    (hs1 : 1 ≤ s) (hsp : s < q.p) (k e : ℤ) (hk1 : 2 ^ (q.p - 1) ≤ |k|) (hk2 : |k| < 2 ^ q.p) (he : q.emin ≤ e - t)
+    (hxm : |(k : ℚ) * 2 ^ e| ≤ Xm) :
+    ∃ xh xl : ℚ, evalQ f r (splitVScale xmb zb oneb cb invb nb) splitVScaleOuts [(k : ℚ) * 2 ^ e] = some [xh, xl] ∧
+      xh + xl = (k : ℚ) * 2 ^ e ∧ Mult (e + s) xh ∧ |xh| ≤ 2 ^ q.p * 2 ^ e ∧ Mult e xl ∧ |xl| ≤ 2 ^ (e + s) / 2 :=
+  EFT.splitVScale_prog hr f xmb zb oneb cb invb nb Xm hC hXm hZ h1 hi hN hs1 hsp hk1 hk2 he hxm
+
+/-- tie: the regenerated scaled splitters are the specification program with these constants
+(x_max, +0, 1, C = 2^s+1, 1/N, N), and the scaling constants are 2^∓6, 2^∓12, 2^∓27 -/
+theorem ties_split_scaled :
+    (split_veltkamp_scale_f16.nodes = splitVScale 31680 0 15360 21520 9216 21504 ∧ split_veltkamp_scale_f16.outs = splitVScaleOuts) ∧
+    (split_veltkamp_scale_f32.nodes = splitVScale 2139090944 0 1065353216 1166018560 964689920 1166016512 ∧
+      split_veltkamp_scale_f32.outs = splitVScaleOuts) ∧
+    (split_veltkamp_scale_f64.nodes = splitVScale 9218868437093187584 0 4607182418800017408 4728779608772575232 4485585228861014016
+        4728779608739020800 ∧ split_veltkamp_scale_f64.outs = splitVScaleOuts) ∧
+    ((decode binary16 9216).toRat?, (decode binary16 21504).toRat?, (decode binary16 15360).toRat?) = (some (1 / 2 ^ 6), some (2 ^ 6), some 1) ∧
+    ((decode binary32 964689920).toRat?, (decode binary32 1166016512).toRat?, (decode binary32 1065353216).toRat?) =
+      (some (1 / 2 ^ 12), some (2 ^ 12), some 1) ∧
+    ((decode binary64 4485585228861014016).toRat?, (decode binary64 4728779608739020800).toRat?, (decode binary64 4607182418800017408).toRat?) =
+      (some (1 / 2 ^ 27), some (2 ^ 27), some 1) := by
+  decide +kernel
+
 /-- the splitting constants of the three formats, as bit patterns, and their values 2^⌈p/2⌉ + 1 -/
 theorem split_constants :
     (decode binary16 21520).toRat? = some (2 ^ 6 + 1) ∧ (decode binary32 1166018560).toRat? = some (2 ^ 12 + 1) ∧
